@@ -59,6 +59,10 @@ IllFormed(p) ==
                                                          /\ \E h \in 1..(i-1) : pk.fields[h].k = "len"} }
   \cup { <<"undeclaredLenTarget", <<"field", j, i>>>> : i \in {i \in 1..Len(pk.fields) : pk.fields[i].k = "len" /\ pk.fields[i].tgt \notin FieldNames(pk)} }
   \cup { <<"undeclaredKeyField", <<"field", j, i>>>> : i \in {i \in 1..Len(pk.fields) : pk.fields[i].k = "match" /\ pk.fields[i].key \notin FieldNames(pk)} }
+  \* the encoders reserve the length field and fill it in after the target: the target must come later
+  \cup { <<"lenofAfterTarget", <<"field", j, i>>>> : i \in {i \in 1..Len(pk.fields) : pk.fields[i].k = "len" /\ pk.root
+                                                              /\ (\A h \in 1..(i-1) : pk.fields[h].k # "len")
+                                                              /\ \E h \in 1..(i-1) : pk.fields[h].name = pk.fields[i].tgt} }
   \cup { <<"undeclaredPacket", <<"field", j, i>>>> : i \in {i \in 1..Len(pk.fields) : pk.fields[i].k = "obj" /\ pk.fields[i].ty \notin PktNames(p)} }
   \cup UNION { LET f == pk.fields[i] ls == PairLits(f) IN
                  { <<"undeclaredPacket", <<"pair", j, i, q>>>> : q \in {q \in 1..Len(f.pairs) : f.pairs[q].pkt \notin PktNames(p)} }
@@ -115,6 +119,9 @@ Step ==
                  \cup (IF pk.name \notin pkts /\ pk.root /\ root THEN D("multiRoot", d) ELSE {})
                  \cup { <<"undeclaredKeyField", <<"field", d[2], i>>>> : i \in {i \in 1..Len(pk.fields) : pk.fields[i].k = "match" /\ pk.fields[i].key \notin fnames} }
                  \cup { <<"undeclaredLenTarget", <<"field", d[2], i>>>> : i \in {i \in 1..Len(pk.fields) : pk.fields[i].k = "len" /\ pk.fields[i].tgt \notin fnames} }
+                 \cup { <<"lenofAfterTarget", <<"field", d[2], i>>>> : i \in {i \in 1..Len(pk.fields) : pk.fields[i].k = "len" /\ pk.root
+                                                                            /\ (\A h \in 1..(i-1) : pk.fields[h].k # "len")
+                                                                            /\ \E h \in 1..(i-1) : pk.fields[h].name = pk.fields[i].tgt} }
             /\ pkts' = pkts \cup {pk.name}
             /\ root' = (root \/ pk.root)
             /\ fnames' = {} /\ lenSeen' = FALSE
@@ -176,12 +183,16 @@ MatchIdx(pk) == {i \in 1..Len(pk.fields) : pk.fields[i].k = "match"}
 Faults(p) ==
      { [class |-> "dupPacket", prog |-> [p EXCEPT !.pkts = Append(@, p.pkts[j])]] : j \in {j \in 1..Len(p.pkts) : ~p.pkts[j].root} }
 \cup { [class |-> "dupMeta", prog |-> [p EXCEPT !.metas = Append(@, p.metas[j])]] : j \in 1..Len(p.metas) }
+\cup { [class |-> "dupMeta", prog |-> [p EXCEPT !.metas = Append(Append(@, [MetaE("Again", "", "", 0, "none") EXCEPT !.ref = p.metas[1].name]), MetaE("Again", "int", "u32", 0, "none"))]] :
+         x \in IF p.metas = <<>> THEN {} ELSE {1} }
 \cup { [class |-> "undeclaredMeta", prog |-> [p EXCEPT !.metas = Append(@, [MetaE("Ghost", "", "", 0, "none") EXCEPT !.ref = "Nowhere"])]] : x \in IF p.metas = <<>> THEN {} ELSE {1} }
 \cup { [class |-> "multiRoot", prog |-> [p EXCEPT !.pkts[j].root = TRUE]] : j \in {j \in 1..Len(p.pkts) : ~p.pkts[j].root} }
 \cup { [class |-> "unknownOption", prog |-> [p EXCEPT !.xopts = Append(@, x)]] : x \in {<<"Foo", "1">>, <<"littleEndian", "true">>} }
 \cup { [class |-> "illegalOptionValue", prog |-> [p EXCEPT !.xopts = Append(@, x)]] :
          x \in { y \in {<<"ArrayPrefixLenType", "i8">>, <<"StringPrefixLenType", "f32">>, <<"FixedStringPadFromLeft", "1">>,
-                         <<"FixedStringPadChar", "\"0\"">>, <<"LittleEndian", "1">>} :
+                         <<"FixedStringPadChar", "\"0\"">>, <<"LittleEndian", "1">>,
+                         <<"ArrayPrefixLenType", "16">>, <<"StringPrefixLenType", "\"u\"">>, <<"FixedStringPadChar", "0">>,
+                         <<"FixedStringPadFromLeft", "\"\"">>, <<"LittleEndian", "\"tru\"">>} :
                   /\ ~\E h \in 1..Len(StdOpts(p)) : StdOpts(p)[h] = y[1]
                   /\ ~\E h \in 1..Len(p.xopts) : p.xopts[h][1] = y[1] } }
 \cup { [class |-> "dupOption", prog |-> [p EXCEPT !.xopts = Append(@, <<p.xopts[h][1], "\"again\"">>)]] :
@@ -197,6 +208,9 @@ Faults(p) ==
              \cup { [class |-> "lenofOutsideRoot", prog |-> AppendField(AppendField(p, j, [F0 EXCEPT !.k = "len", !.name = "xl", !.ty = "u16", !.tgt = "xt"]), j, [F0 EXCEPT !.k = "obj", !.name = "xt", !.ty = "A"])] :
                       x \in IF p.pkts[j].root \/ ~(\E h \in 1..Len(p.pkts) : p.pkts[h].name = "A") THEN {} ELSE {1} }
              \cup { [class |-> "lenofTwice", prog |-> AppendField(AppendField(p, j, [F0 EXCEPT !.k = "len", !.name = "xl", !.ty = "u16", !.tgt = "xt"]), j, [F0 EXCEPT !.k = "obj", !.name = "xt", !.ty = "A"])] :
+                      x \in IF p.pkts[j].root /\ (\E i \in 1..Len(p.pkts[j].fields) : p.pkts[j].fields[i].k = "len") THEN {1} ELSE {} }
+             \* the length field moved behind everything else of its packet
+             \cup { [class |-> "lenofAfterTarget", prog |-> [p EXCEPT !.pkts[j].fields = SelectSeq(@, LAMBDA f : f.k # "len") \o SelectSeq(@, LAMBDA f : f.k = "len")]] :
                       x \in IF p.pkts[j].root /\ (\E i \in 1..Len(p.pkts[j].fields) : p.pkts[j].fields[i].k = "len") THEN {1} ELSE {} }
              \cup { [class |-> "undeclaredLenTarget", prog |-> [p EXCEPT !.pkts[j].fields[i].tgt = "nothing"]] :
                       i \in {i \in 1..Len(p.pkts[j].fields) : p.pkts[j].fields[i].k = "len"} }
